@@ -108,7 +108,11 @@ Definition holds_fill (P : Circuit) (inst : string) (SC R : Circuit) (oc : outco
     | None => true
     | Some d => existsb (λ b, bool_decide (pre inst b ∈ dom (c_bbs P))) (elements (dom (c_bbs SC))) ||
                 negb (bool_decide (inputs gS = bb_in d)) || negb (bool_decide (outputs gS = bb_out d)) ||
-                existsb (λ n, bool_decide (pre inst n ∈ dom gP)) (elements (dom gS))
+                existsb (λ n, bool_decide (pre inst n ∈ dom gP)) (elements (dom gS)) ||
+                (* a surviving pin node that lost its pin type; an output of sc that is itself a blackbox pin (fix a758c71) *)
+                existsb (λ p, match ty gP (pin inst p) with Some t => negb (bool_decide (t = BbIn)) | None => false end) (elements (bb_in d)) ||
+                existsb (λ p, match ty gP (pin inst p) with Some t => negb (bool_decide (t = BbOut)) | None => false end ||
+                              is_in (ty gS p) [BbIn; BbOut]) (elements (bb_out d))
     end in
   match oc, c_bbs P !! inst with
   | Fail e, _ => bool_decide (e = ValueError) && reject
